@@ -72,6 +72,10 @@ def observe(raw, cut, start, alt=0):
         o["allin"] = bool(fh.is_all_in_sample(c1))
         o["allout"] = bool(fh.is_all_out_of_sample(c2))
         o["idx"] = L(fh.to_indexer(c1))
+        if fh.is_relative and L(fh.to_indexer()) != o["idx"]:
+            o["idx"] = o["idx"] + [-999999]       # a relative horizon needs no cutoff; same steps - 1
+        i0 = fh.to_indexer(c2, from_cutoff=False)
+        o["idx0"] = L(i0.to_pandas() if hasattr(i0, "to_pandas") else i0)
         o["absint"] = L(fh.to_absolute_int(int(start), c2).to_pandas())
         # a second look with the other cutoff type must agree (cache keyed by type)
         if L(fh.to_absolute(c2).to_pandas()) != o["abs"] or L(fh.to_indexer(c2)) != o["idx"]:
